@@ -54,9 +54,10 @@ package manager
 //@ func (*Manager).handleUpdates
 //@   props C13 C12
 //@   requires Callbacks(m) && ta != nil && sc != nil && ctx != nil && !inSession[ta.name]
-//@   modifies ghost inSession, ghost connectsN, ghost resetsN, ghost sendTimerArmed
-//@   invariant 0: resetsN == old(resetsN) && inSession[ta.name] == connected && connectsN[ta.name] == old(connectsN[ta.name]) + ite(connected, 1, 0)
+//@   modifies ghost inSession, ghost connectsN, ghost resetsN, ghost sendTimerArmed, ghost streamRecvs
+//@   invariant 0: streamRecvs >= old(streamRecvs) && resetsN == old(resetsN) && inSession[ta.name] == connected && connectsN[ta.name] == old(connectsN[ta.name]) + ite(connected, 1, 0)
 //@     && (forall k string :: k != ta.name ==> inSession[k] == old(inSession[k]) && connectsN[k] == old(connectsN[k]))
+//@   assert at call field Manager.connect#0: [connect-only-after-the-first-message C13] streamRecvs > old(streamRecvs)
 //@   ensures [stream-ends-only-on-error C13] res0 != nil
 //@   ensures [exactly-one-reset-ends-the-stream C13] resetsN[ta.name] == old(resetsN[ta.name]) + 1 && !inSession[ta.name]
 //@   ensures [at-most-one-connect C13] connectsN[ta.name] <= old(connectsN[ta.name]) + 1
@@ -70,7 +71,7 @@ package manager
 //@ func (*Manager).subscribe
 //@   props C13 C12
 //@   requires Callbacks(m) && ta != nil && ctx != nil && !inSession[ta.name] && subscribeClient != nil
-//@   modifies ghost inSession, ghost connectsN, ghost resetsN, ghost sendTimerArmed
+//@   modifies ghost inSession, ghost connectsN, ghost resetsN, ghost sendTimerArmed, ghost streamRecvs
 //@   ensures [session-closed-on-return C13] !inSession[ta.name]
 //@   ensures [other-targets-untouched C13] forall k string :: k != ta.name ==> inSession[k] == old(inSession[k])
 
@@ -155,7 +156,7 @@ package manager
 //@ func (*Manager).monitor
 //@   props C13 C12 C16
 //@   requires Wired(m) && ta != nil && ctx != nil && !inSession[ta.name]
-//@   modifies ghost inSession, ghost connectsN, ghost resetsN, ghost sendTimerArmed
+//@   modifies ghost inSession, ghost connectsN, ghost resetsN, ghost sendTimerArmed, ghost streamRecvs
 //@   ensures [session-closed-on-return C13] !inSession[ta.name]
 //@   ensures [other-targets-untouched C13] forall k string :: k != ta.name ==> inSession[k] == old(inSession[k])
 // The release function createConn hands on (a connection manager's done function).
@@ -173,7 +174,7 @@ package manager
 //@   props C13 C12
 //@   requires Wired(m) && ta != nil && ctx != nil && !inSession[ta.name]
 //@   requires ta.finished != nil && !closed(ta.finished) && !isctxdone(ta.finished)
-//@   modifies ghost inSession, ghost connectsN, ghost resetsN, ghost sendTimerArmed, closed(ta.finished)
+//@   modifies ghost inSession, ghost connectsN, ghost resetsN, ghost sendTimerArmed, ghost streamRecvs, closed(ta.finished)
 //@   invariant 0: [attempts-start-and-end-outside-a-session C13] !inSession[ta.name] && !closed(ta.finished) && sCtx != nil && timer != nil
 //@     && (forall k string :: k != ta.name ==> inSession[k] == old(inSession[k]))
 //@   ensures [finished-signalled-after-the-last-callback C13] closed(ta.finished) && !inSession[ta.name]
